@@ -10,10 +10,10 @@ CHECKS = {
     text=("Bounded symbolic execution of the real _check_attr/_access_attr/handlers/restricted()/Connection.__init__ "
           "(AST re-read from /repo each run) with all 7 switches, an unbounded prefix string, an unbounded name string and an "
           "uninterpreted attribute-existence predicate as solver variables; every path verdict is a z3 unsat of the negated "
-          "policy oracle; every explored path of _check_attr is also replayed concretely on CPython (translator validation). "
+          "policy oracle (an allowed name that exists on the object is itself what is accessed; the exposed twin stands in only otherwise); every explored path of _check_attr is also replayed concretely on CPython (translator validation). "
           "This covers the whole switch x name x object-shape x operation space at once, which the 5x7 sample of the suite cannot."),
     note=("Trusted: z3; the interpreter (validated per path against CPython for O1); spy objects abstract the target object's "
-          "attribute protocol; oracle is the weakest reading of the property (either target accepted when both name and twin qualify). "
+          "attribute protocol; when the allowed name does not exist on the object and a twin does, either target is accepted (the text is silent). "
           "Isolation histories bounded to length 2 (quick) / 3 (thorough)."),
     technique="symbolic execution of the Python AST + z3 (strings, uninterpreted predicates); replay on CPython"),
  "C04": dict(
@@ -55,7 +55,8 @@ CHECKS = {
           "solver variable (linear real arithmetic): every history of <=3 (quick)/4 (thorough) events over {advance, reply arrives, add_callback, "
           "ready?, expired?, error?, wait, value}, any timeout (none/negative/zero/positive), any arrival delay and every outcome of each serve() "
           "call (reply/unrelated traffic/idle/busy) is compared clause by clause with a reference state machine written from the property text; "
-          "z3 finds boundary coincidences (reply exactly at the expiry, zero timeouts) that second-scale wall-clock tests cannot."),
+          "z3 finds boundary coincidences (reply exactly at the expiry, zero timeouts) that second-scale wall-clock tests cannot. timed() is built "
+          "by its real constructor a symbolic delay before it is called: the expiry must count from the call."),
     note=("Trusted: z3, interpreter (validated against CPython on 8 AsyncResult scenarios every run), the contract of Connection.serve(timeout) "
           "used as environment (returns on arrival or exactly at the timeout unless busy), real arithmetic for clock values. Negative timeouts: "
           "only finality/callback clauses asserted. Bounds: history length, <=3 serve() calls per wait (cut paths counted)."),
@@ -100,8 +101,8 @@ CHECKS = {
     text=("Symbolic execution of the real _dispatch_request/_dispatch/_seq_request_callback/_async_request/_send/_box/_unbox together with the "
           "real brine encoder: the request's sequence number, the handler's integer/text results (unbounded Int: the solver reaches results the "
           "interpreter cannot render, i.e. replies that fail to encode), the two propagate switches and the incoming response number are solver "
-          "variables; handler outcomes (values, references, four exception kinds, undecodable arguments, unknown handler, wrong arity) are "
-          "exhaustive choices. Assertions are over the frame ledger of an in-memory channel: exactly one response bearing the request's own number, "
+          "variables; handler outcomes (values, references, every built-in exception class, an application-defined BaseException, CancelledError, "
+          "exceptions with unprintable data, undecodable arguments, unknown handler, wrong arity) are exhaustive choices. Assertions are over the frame ledger of an in-memory channel: exactly one response bearing the request's own number, "
           "handler at most once, nothing escapes but the configured local propagations; a response reaches exactly the callback registered under "
           "its number; callbacks are registered before sending and removed on failure."),
     note=("Trusted: z3, interpreter, stub contracts of C04. One request/response at a time (histories and threads are C10-C13). The pinned tree's "
@@ -172,7 +173,8 @@ CHECKS = {
     category="other", design_ref="DESIGN.md section 4 (C10)",
     text=("Inductive step with symbolic counts on the real code: from an arbitrary state (owner's count, proxy's count, references in flight and "
           "up to two release notices in flight as solver Ints, slot present / proxy alive as choices) satisfying the reference-count invariant, each "
-          "real transition -- _box again, _unbox (cached or fresh proxy), BaseNetref.__del__ sending its whole count, _handle_del/decref -- must "
+          "real transition -- _box again, _unbox (cached or fresh proxy), BaseNetref.__del__ sending its whole count, _handle_del/decref, an "
+          "asynchronous reply carrying the reference being delivered and its result dropped unread -- must "
           "re-establish it (z3, LIA); the invariant implies that live proxies resolve and that the table is empty at quiescence. Cross-check and "
           "replay vehicle: every history of <=6 events over {box object 0/1, peer consumes next item, peer drops a proxy, owner consumes next "
           "frame} on two real connections with manual frame delivery, i.e. all relative orders of the two one-way streams incl. a release crossing "
@@ -228,7 +230,10 @@ CHECKS = {
           "bookkeeping; AST re-read from /repo each run) over a model of sockets, threads, processes and time: every history of 3 (quick)/4 "
           "(thorough) external events over {well-behaved client connects / calls / leaves gracefully or abruptly, clients sending an absurd "
           "length field, corrupt compressed data, an undecodable payload, a truncated header, resetting before the server looks, staying silent, "
-          "failing authentication} x {threaded, thread-pool, forking} x {no authenticator, token authenticator}; after each history a fresh "
+          "failing authentication, a protocol-speaking client that answers the server's nested INSPECT question with an exception reply naming "
+          "KeyboardInterrupt/SystemExit} x {threaded, thread-pool, forking} x {no authenticator, token-reading authenticator, authenticator handing "
+          "back a new socket object as ssl wrapping does} x (thread pool) {disconnect hooks return at once / take until the next event}; descriptor "
+          "numbers are reused as a kernel does; after each history a fresh "
           "well-behaved client must be accepted and answered by its own service instance, the accept loop and pool threads must be alive, "
           "earlier well-behaved clients must have been answered. O2: the errno of a failing accept() is a solver Int -- on every path where the "
           "server stops accepting, z3 must prove it is none of the errnos clients can provoke. Counterexample histories are re-executed by CPython on the real server.py; "
@@ -238,8 +243,9 @@ CHECKS = {
           "connection level are C04/C05/C07/C08 -- so the solver decides no data here. One settled interleaving per history; real kernels, "
           "descriptor exhaustion, a pool worker pinned by a partial frame that never completes, one-shot and gevent servers are outside. "
           "Trusted: the environment model (props/srv_world.py), interpreter (validated against CPython on 32 histories every run). "
-          "Known finding: a thread-pool server authenticates on its accept thread. A genuine defect (client-provocable accept() errors shut the "
-          "server down) was found by O2 and repaired in /repo."),
+          "Known finding: a thread-pool server authenticates on its accept thread. Two genuine defects were found and repaired in /repo: "
+          "client-provocable accept() errors shut the server down (O2); a thread-pool client reusing the descriptor number of a departed client "
+          "whose disconnect hook is still running was dropped in its place (O1)."),
     technique="bounded symbolic execution of server.py over a modelled socket/thread/process environment (history and fault kind as decision variables); replay on CPython, live demonstration on real sockets"),
  "C17": dict(
     category="other", design_ref="DESIGN.md section 4 (C17)",
@@ -247,15 +253,17 @@ CHECKS = {
           "the four _accept_method variants incl. the forking parent and child branches, ThreadPoolServer poller/workers/_drop_connection/close) "
           "over a model of sockets, threads, processes (fork duplicates descriptors) and time: every history of 3 (quick)/4 (thorough) external "
           "events over {client connects / calls / leaves gracefully / leaves abruptly, silent client, client failing authentication, client that "
-          "resets before the server looks, close()} x 4 server classes x {no authenticator, token authenticator}, then close(): departed clients "
+          "resets before the server looks, close()} x 4 server classes x {no authenticator, token-reading authenticator, authenticator handing back "
+          "a new socket object as ssl wrapping does} x (thread pool) {fast / slow disconnect hooks}, then close(): departed clients "
           "are served by nobody and mentioned in no table (clients, fd_to_conn, poll registrations); after close() the listener is closed, every "
           "connected client observes end-of-stream, every disconnect hook ran exactly once, tables are empty, server threads have ended, closing "
           "again is harmless; a one-shot server accepts one connection and shuts down when it ends."),
     note=("Reduced scope, as DESIGN.md states: decision variables are the history and the configuration (finite, explored exhaustively); one "
           "settled interleaving per history; /proc/self/fd accounting, TCP promptness, SIGCHLD reaping, unix-socket path cleanup and races with a "
           "thread that has not reached its next blocking call are outside. Trusted: environment model, interpreter (validated against CPython on 32 "
-          "histories every run), 'shut down and unreferenced = released'. Two genuine defects of the thread-pool server were found here and repaired "
-          "in /repo; ForkingServer.close() leaving its children serving is a recorded known finding (live demonstration under live/)."),
+          "histories every run), 'shut down and unreferenced = released'. Three genuine defects were found here and repaired in /repo (thread-pool "
+          "close() left clients connected; thread-pool kept a table entry for a failed client; close() could not reach clients whose authenticator "
+          "returned a new socket object); ForkingServer.close() leaving its children serving is a recorded known finding (live demonstration under live/)."),
     technique="bounded symbolic execution of server.py over a modelled socket/thread/process environment (history as decision variables); replay on CPython, live demonstration on real sockets/processes"),
 }
 
